@@ -35,6 +35,10 @@ var $callDeferred = (deferred, jsErr, fromPanic) => {
         $panicStackDepth = $getStackDepth();
         $panicValue = localPanicValue;
     }
+    /* Set when a panic that was still in flight after this frame was resumed got recovered by a deferred call
+       of one of the callers: the JavaScript stack then has to be unwound up to that caller's frame. */
+    var movedToCallerFrame = false, unwindToRecoveringFrame = false;
+    var panicking = localPanicValue !== undefined;
 
     try {
         while (true) {
@@ -62,8 +66,9 @@ var $callDeferred = (deferred, jsErr, fromPanic) => {
             var call = deferred.pop();
             if (call === undefined) {
                 $curGoroutine.deferStack.pop();
-                if (localPanicValue !== undefined) {
+                if (panicking) {
                     deferred = null;
+                    movedToCallerFrame = true;
                     continue;
                 }
                 if ($curGoroutine.exit && $curGoroutine.deferStack.length < $curGoroutine.exitDepth) {
@@ -84,12 +89,18 @@ var $callDeferred = (deferred, jsErr, fromPanic) => {
                 return;
             }
 
-            if (localPanicValue !== undefined && $panicStackDepth === null) {
+            if (panicking && $panicStackDepth === null) {
                 /* error was recovered */
                 if (fromPanic) {
                     throw null;
                 }
-                return;
+                if (movedToCallerFrame) {
+                    unwindToRecoveringFrame = true;
+                    return;
+                }
+                /* Recovered by a deferred call of this very frame (after an earlier one had suspended): its
+                   remaining deferred calls still have to run, now as part of a normal return. */
+                panicking = false;
             }
         }
     } catch (e) {
@@ -113,6 +124,9 @@ var $callDeferred = (deferred, jsErr, fromPanic) => {
             $panicValue = outerPanicValue;
         }
         $stackDepthOffset++;
+        if (unwindToRecoveringFrame) {
+            throw null;
+        }
     }
 };
 
